@@ -30,14 +30,14 @@ PROPS = {
             "explanation": "writer: every statement row, read by the spec's delta rules in the writer's final tables, denotes the input terms under the premise that every enabled table has room for the statement (encode_iri_indices ... encode_spo/encode_triple, LRU stability by ghost marks; both integrations' term encoders); reader: decode_iri/literal/statement/triple/quad and iter_rows compute exactly the spec decoding in the reader's tables; the tables are coupled for all histories (C05 lemmas) and the lemma statement_roundtrip composes writer postcondition and reader specification into 'read back == written' for flat triples; buffered rows keep their order into frames (list cases of triple/quad/to_stream_frame). Bounded only: nested quoted triples, the graph slot of quads end to end, byte-level entry points.",
             "note": "Proved per function for all inputs under the listed library models; composition across entry rows of unknown number is by the rows_account fold (uninterpreted for opaque segments); quads' graph-slot denotation, nested quoted triples and entry points are bounded."},
     "C02": {"level": "other", "technique": TECH_M, "assumptions": ENCODER + [A_PROTO, A_RDFLIB],
-            "explanation": "proof: RDFLibTermEncoder.encode_spo is verified against the same contract as the generic term encoder (terms denoted by the ids written, entry rows account for table changes), encode_graph against its rdflib-specific contract (default-graph id, URIRef, BNode), and the statement-level encoders encode_spo/encode_triple are re-verified with the rdflib encoder as receiver; bounded: rdflib Graph/Dataset round trips through the plugin (stores, namespace manager, parser adapters, rdflib's own literal normalisation as expectation).",
-            "note": "rdflib itself is modelled only at term level (A-RDFLIB); the parse-side adapters, stream_frames over Graph/Dataset and the plugin are bounded only."},
+            "explanation": "proof: RDFLibTermEncoder.encode_spo is verified against the same contract as the generic term encoder (terms denoted by the ids written, entry rows account for table changes), encode_graph against its rdflib-specific contract (default-graph id, URIRef, BNode), and the statement-level encoders encode_spo/encode_triple are re-verified with the rdflib encoder as receiver; reader: all Decoder contracts (spec decoding, exact raise conditions, refusal of row kinds the physical type forbids, iter_rows per-row clauses, Decoder.__init__) are verified once more with rdflib's adapters, plus RDFLibGraphsAdapter.triple/graph_start/graph_end and rdflib's parse_*_stream; bounded: rdflib Graph/Dataset round trips through the plugin (stores, namespace manager, rdflib's own literal normalisation as expectation), stream_frames over Graph/Dataset.",
+            "note": "rdflib itself is modelled only at term level (A-RDFLIB: constructors build term values, URIRef/BNode taken by their string value); stream_frames over Graph/Dataset, parse_jelly_* entry points and the plugin are bounded only."},
     "C03": {"level": "proof", "technique": TECH_P, "assumptions": ENCODER + [A_PROTO, A_ABS],
             "explanation": "writer refines the Jelly spec tables: each entry row is a valid spec assignment and the rows account exactly for the table changes, every id written lies within the table and resolves by the delta rules to the intended string (C01 premise), entry rows precede the statement row, quoted triples are complete; the options row is written exactly once, on first use, with the configured values (Stream.enroll) and the stream is enrolled before any statement (stream_frames invariants); graphs are bracketed (GraphStream.graph list cases); namespace rows arise only from Stream.namespace_declaration. Bounded: real bytes re-read by the independent wire codec + spec state machine.",
             "note": "Library models A-OD, A-STR, A-PROTO assumed; nested quoted-triple denotation and row-kind vs physical-type at whole-stream level are bounded."},
     "C04": {"level": "other", "technique": TECH_M, "assumptions": COMMON + [A_PROTO, A_DQ, A_ABS, A_TQ, A_NOOPT],
-            "explanation": "proof: for any row sequence the reader's tables are the spec tables (iter_rows invariant; per row: an entry row performs exactly the spec assignment, a triple row yields the spec decoding, exactly statement and namespace rows are yielded), decode_iri/literal/statement/triple/quad/graph_start/namespace_declaration compute the spec rules with exact raise conditions, Decoder.__init__ starts from empty spec tables of the declared sizes, parse_*_stream use one decoder per stream and the adapter of the physical type; bounded: quoted triples, rdflib adapters, byte-level entry points on reference-encoder streams with arbitrary legal producer choices.",
-            "note": "Mostly proved; nested denotation of quoted triples, rdflib adapters and entry points are bounded."},
+            "explanation": "proof: for any row sequence the reader's tables are the spec tables (iter_rows invariant; per row: an entry row performs exactly the spec assignment, a triple row yields the spec decoding, exactly statement and namespace rows are yielded), decode_iri/literal/statement/triple/quad/graph_start/namespace_declaration compute the spec rules with exact raise conditions, Decoder.__init__ starts from empty spec tables of the declared sizes, parse_*_stream use one decoder per stream and the adapter of the physical type; bounded: nested denotation of quoted triples, byte-level entry points on reference-encoder streams with arbitrary legal producer choices.",
+            "note": "Mostly proved, for both integrations' adapters; nested denotation of quoted triples and the entry points are bounded."},
     "C05": {"level": "proof", "technique": TECH_P, "assumptions": COMMON + [A_OD, A_DQ, A_NOOPT],
             "explanation": "inductive invariant over all lookup histories, all sizes and key alphabets: constructors establish and every Lookup/LookupEncoder/LookupDecoder operation preserves the coupling with the Jelly spec table; mirror lemmas compose writer and reader contracts (the reader resolves exactly the writer's key)",
             "note": "LRU victim choice is left nondeterministic; integers mathematical."},
@@ -69,8 +69,8 @@ PROPS = {
             "explanation": "proof: encode_namespace_declaration writes the prefix label and IRI ids that denote the namespace IRI behind the entry rows they need, decode_namespace_declaration returns the same label and the IRI by the spec rules, the generic helper passes the IRI string of every binding in order, and with the option off no declaration goes through Stream.namespace_declaration (ghost counter over all three stream_frames); bounded: rdflib NamespaceManager, evicting tables end to end, on/off comparison of statements.",
             "note": ""},
     "C15": {"level": "other", "technique": TECH_M, "assumptions": ENCODER + [A_PROTO, A_RDFLIB],
-            "explanation": "proof: both integrations' term encoders satisfy the same encode_spo contract (corresponding terms are written identically), the reader core is shared; bounded: the six parse entry points on the same bytes, both flat serialisers byte for byte.",
-            "note": "rdflib adapters and entry points are bounded."},
+            "explanation": "proof: both integrations' term encoders satisfy the same encode_spo contract (corresponding terms are written identically); the shared Decoder is verified against the same contracts with either integration's adapters (corresponding rows decode to corresponding terms; the default graph is the generic DefaultGraph object resp. rdflib's default-graph id), guess_stream sizes the encoder as the header announces; bounded: the six parse entry points on the same bytes, both flat serialisers byte for byte.",
+            "note": "entry points are bounded."},
     "C16": {"level": "other", "technique": TECH_M, "assumptions": COMMON + [A_PROTO, A_DQ, A_TQ, A_NOOPT],
             "explanation": "proof: raise conditions of every reader function are exact (raise iff the spec step is invalid), row kinds an adapter has no handler for are refused, a triple outside a graph is refused, options_from_frame raises iff pair invalid / name table < 8, table cap; bounded: one violation of every catalogued class at every applicable row on real bytes, both integrations.",
             "note": ""},
